@@ -68,7 +68,9 @@
 (***************************************************************************)
 EXTENDS Integers, Sequences, FiniteSets, TLC, Json
 
-CONSTANTS Bases,       \* sequence of records [sp |-> space, np |-> number of points of every element]
+CONSTANTS Bases,       \* sequence of records [sp |-> space, np |-> number of points of every element of the live sample,
+                       \*   items |-> number of points of every primitive point set, ps |-> the PointsSequence container
+                       \*   expression over them (see PsGet)]
           AtomDefs,    \* sequence of records [name, kind, b, p, s]: the leaves (see AtomExpr); operands of the binary
                        \* operations are leaves, so a leaf may also be the sum of two base samples
           StartAtoms,  \* names of the atoms the machine may start from
@@ -247,7 +249,31 @@ OpSubset(x, M) ==
     ELSE OpTake(x, Selection(x, M))
 
 \* ------------------------------------------------------------------ leaves
-BasePoints(b) == [e \in 1..Len(Bases[b].np) |-> [k \in 1..Bases[b].np[e] |-> <<SaRef(b, e - 1, k - 1)>>]]
+\* PointsSequence containers (pointsseq.py).  The points of a base sample are named by the expression [k, p, u] that built
+\* the sequence from primitive point sets ("items", numbered from 1):
+\*   "items"    PointsSequence.from_iter of the items p            (_Plain / _Uniform)
+\*   "take"     u[1].take(p)                                       (_Take.get: parent.get(indices[index]))
+\*   "repeat"   u[1].repeat(p[1])                                  (_Repeat.get: parent.get(index % len(parent)))
+\*   "chain"    u[1].chain(u[2])                                   (_Chain.get)
+\*   "product"  u[1].product(u[2])                                 (_Product.get: divmod(index, len(sequence2)); TensorPoints:
+\*                                                                  row-major, coordinates joined, weights multiplied)
+\* PsGet(b, r, i) is the point set at index i (0-based): for each of its points the primitive points <<item, k>> it is made of
+RECURSIVE PsLen(_), PsGet(_, _, _)
+PsLen(r) == IF r.k = "items" THEN Len(r.p)
+            ELSE IF r.k = "take" THEN Len(r.p)
+            ELSE IF r.k = "repeat" THEN PsLen(r.u[1]) * r.p[1]
+            ELSE IF r.k = "chain" THEN PsLen(r.u[1]) + PsLen(r.u[2])
+            ELSE PsLen(r.u[1]) * PsLen(r.u[2])
+PsGet(b, r, i) ==
+    IF r.k = "items" THEN [k \in 1..Bases[b].items[r.p[i + 1]] |-> <<<<r.p[i + 1], k - 1>>>>]
+    ELSE IF r.k = "take" THEN PsGet(b, r.u[1], r.p[i + 1])
+    ELSE IF r.k = "repeat" THEN PsGet(b, r.u[1], i % PsLen(r.u[1]))
+    ELSE IF r.k = "chain" THEN IF i < PsLen(r.u[1]) THEN PsGet(b, r.u[1], i) ELSE PsGet(b, r.u[2], i - PsLen(r.u[1]))
+    ELSE SaOuter(PsGet(b, r.u[1], i \div PsLen(r.u[2])), PsGet(b, r.u[2], i % PsLen(r.u[2])))
+PsTable(b) == [e \in 1..PsLen(Bases[b].ps) |-> PsGet(b, Bases[b].ps, e - 1)]
+BasePoints(b) == [e \in 1..PsLen(Bases[b].ps) |-> [k \in 1..Len(PsGet(b, Bases[b].ps, e - 1)) |-> <<SaRef(b, e - 1, k - 1)>>]]
+\* the structure exported from the live samples (len(points.get(e).coords) for every e) is the one the container model predicts
+ContainerStructure == \A b \in 1..Len(Bases) : Bases[b].np = SaLens(BasePoints(b))
 \* Topology._sample(ielems, coords, weights), topology.py:1688-1703: the points are grouped per element by a stable
 \* argsort of ielems; the index puts them back at their original positions.  p = ielems (one per located point)
 LocUniq(p) == SaSorted(SaRange(p))
@@ -268,7 +294,6 @@ AtomOf(n) == AtomExpr(AtomDefs[AtomNamed(n)])
 LocatedStructure == \A k \in 1..Len(AtomDefs) :
                        AtomDefs[k].kind = "located" => Bases[AtomDefs[k].b].np = SaLens(LocSlices(AtomDefs[k].p))
 CustomIsPerm == \A k \in 1..Len(AtomDefs) : AtomDefs[k].kind = "custom" => SaIsPerm(AtomDefs[k].p, SaSum(Bases[AtomDefs[k].b].np))
-ASSUME LocatedStructure
 ASSUME CustomIsPerm
 
 \* ------------------------------------------------------------------ the machine: one nesting per state
@@ -320,6 +345,9 @@ Next == ATake \/ ASubset \/ AAdd \/ AMul \/ AZip
 Spec == Init /\ [][Next]_vars
 
 \* ------------------------------------------------------------------ property clauses
+\* T binding of the leaves: the exported structure is the one the model predicts (state-level so that TLC reports a violation)
+ContainerInv == nops >= 0 /\ ContainerStructure
+LocatedInv == nops >= 0 /\ LocatedStructure
 Sizes == /\ expr.ne = Len(expr.dn) /\ expr.ne = Len(expr.ix)
          /\ expr.np = SaSum(SaLens(expr.dn))
 IndexPartition == /\ SaIsPerm(SaFlat(expr.ix), expr.np)
@@ -360,7 +388,8 @@ Behaviour == [ops |-> opx, nops |-> nops, cls |-> ClassTree(expr), spaces |-> ex
               nelems |-> expr.ne, npoints |-> expr.np, index |-> expr.ix, elems |-> expr.dn,
               canbind |-> CanBind(expr), canint |-> CanIntegrate(expr)]
 EmitAll == Emit(Behaviour)
-\* the leaves' tables (the slices of the located samples)
+\* the leaves' tables (the primitive points of every base point, the slices of the located samples)
+BaseTable == [b \in 1..Len(Bases) |-> PsTable(b)]
 AtomTable == [k \in 1..Len(AtomDefs) |-> [name |-> AtomDefs[k].name,
                                            slices |-> IF AtomDefs[k].kind = "located" THEN LocSlices(AtomDefs[k].p) ELSE <<>>]]
 =============================================================================
